@@ -20,7 +20,7 @@ CONTROL = ['Base Header Level', 'HTML Header Level', 'XHTML Header Level', 'LaTe
 NEUTRAL_KEYS = ['Title', 'Author', 'Date', 'Copyright', 'Keywords', 'Subtitle', 'Affiliation', 'Revision', 'Custom Thing', 'X-Y.z', 'CSS', 'HTML Header', 'XHTML Header',
                 'LaTeX Leader', 'LaTeX Begin', 'LaTeX Footer', 'LaTeX Config', 'LaTeX Title', 'LaTeX Author', 'ODF Header', 'Email', 'Web', 'Phone', 'My Own Key 7']
 NEUTRAL_VALUES = ['Plain', 'Two words', 'A & B', 'x < y', '"quoted"', "it's", '100% sure', 'under_score', 'a#b', 'dollar $5', 'back\\slash', '{braces}', 'é ü 中', 'http://e.x/?a=1&b=2',
-                  '*star*', '`tick`', 'tilde~ caret^', 'style.css', '<meta name="x" content="y">', 'article', 'm%d sentinel']
+                  '*star*', '`tick`', 'jo@example.org', 'Jo <jo@example.org>', 'mailto:jo@x.org', 'tilde~ caret^', 'style.css', '<meta name="x" content="y">', 'article', 'm%d sentinel']
 
 
 def strip_meta(doc):
@@ -49,6 +49,9 @@ def gen_body(rng):
     if re.match(rb'^\s*[A-Za-z0-9][A-Za-z0-9_ \t\-\.]*:', d) or d.startswith(b'---'):
         d = b'Body starts here.\n\n' + d
     d = d.replace(b'[%', b'[ %').replace(b'{{', b'{ {')
+    if rng.random() < 0.2:
+        # users of hidden state (obfuscation random numbers, counters): the wrapper must not disturb them
+        d += b'\n\n' + gen.state_heavy(rng).replace(b'{{TOC}}', b'')
     return d
 
 
